@@ -34,3 +34,41 @@ func VH_C19_qos_footprint() {
 	_ = d.UnmarshalBinary(in) // input not owned
 	vrt.FootprintEnd("QoS marshal/unmarshal write only their receiver and fresh memory")
 }
+
+// readers of a shared decoded element: nothing is owned by the calls, so every store to pre-existing memory counts
+// (also one that is undone before the call returns - two concurrent readers would race on it)
+func VH_C19_identity_readers_footprint() {
+	kind := vrt.Choose("kind", 0, 5)
+	n := 13
+	first := byte(0x01) // SUCI, SUPI format IMSI
+	switch kind {
+	case 1:
+		first = 0x11 // SUCI, NAI
+	case 2:
+		first, n = 0xf2, 11 // 5G-GUTI
+	case 3:
+		first, n = 0x03|vrt.U8("d1")<<4, 8 // IMEI
+	case 4:
+		first, n = 0xf4, 7 // 5G-S-TMSI
+	case 5:
+		first, n = 0x05|vrt.U8("d1")<<4, 9 // IMEISV
+	}
+	buf := vrt.Bytes("b", n)
+	buf[0] = first
+	if kind == 0 && vrt.Bool("nullScheme") {
+		buf[6] = 0
+	}
+	a := &MobileIdentity5GS{Len: uint16(n), Buffer: buf}
+	vrt.FootprintBegin()
+	_, _ = a.GetTypeOfIdentity()
+	_ = a.GetSUCI()
+	_, _, _ = a.GetMobileIdentity()
+	_ = a.GetPlmnID()
+	_ = a.Get5GGUTI()
+	_ = a.Get5GTMSI()
+	_ = a.GetIMEI()
+	_ = a.GetIMEISV()
+	_, _, _ = a.Get5GSTMSI()
+	_ = a.GetMobileIdentity5GSContents()
+	vrt.FootprintEnd("text getters of a shared mobile identity only read it")
+}
